@@ -210,7 +210,14 @@ class IntervalTier(textgrid_tier.TextgridTier):
 
     def deleteEntry(self, entry: Interval) -> None:
         """Removes an entry from the entries"""
-        self._entries.pop(self._entries.index(entry))
+        index = self._entries.index(entry)
+        # Entries that differ by rounding noise only compare equal; if several
+        # do, remove the one that is exactly the given entry
+        for i, candidate in enumerate(self._entries):
+            if candidate == entry and tuple(candidate) == tuple(entry):
+                index = i
+                break
+        self._entries.pop(index)
 
     def difference(self, tier: "IntervalTier") -> "IntervalTier":
         """Takes the set difference of this tier and the given one
